@@ -34,9 +34,12 @@ def grad(t):
 
 
 UNSORTED = {2: [2.0, 1.0], 3: [4.0, 1.0, 2.0], 4: [1.5, 9.0, 1.0, 4.0], 5: [3.0, 1.0, 8.0, 2.0, 5.0]}
+TIED = {2: [1.0, 1.0], 3: [1.0, 2.0, 2.0], 4: [1.0, 1.0, 3.0, 3.0], 5: [1.0, 2.0, 2.0, 2.0, 5.0]}  # equal temperatures are legal
 
 
 def ladder_of(N, which="sorted"):
+    if which == "tied":
+        return TIED[N]
     return LADDERS[N] if which == "sorted" or N not in UNSORTED else UNSORTED[N]
 
 
@@ -254,16 +257,25 @@ def _check_round(rd, ri, ctx, N, ladder, kind, lname, add_fail, tags):
                 if ri == 0:
                     raise HarnessError("stored probability differs from posterior before the exchange (C03 territory)")
                 add_fail("exchange/probability-of-installed-point-wrong-before-next-round", f"chain {i}: stored {b.probs[-1]!r}, posterior/T {ref / ladder[i]!r}", choices=ctx.choices)
-        want = sorted(min(1.0, math.exp(min((1 / ladder[i] - 1 / ladder[j]) * (L[j] - L[i]), 50))) for i, j in pairs)
+        prob = {(i, j): min(1.0, math.exp(min((1 / ladder[i] - 1 / ladder[j]) * (L[j] - L[i]), 50))) for i, j in pairs}
+        want = sorted(prob.values())
         got = sorted(min(max(o[3], 0.0), 1.0) for o in obs if o[0] == "cmp")
-        if len(got) != len(want) or any(abs(g - w) > 1e-12 for g, w in zip(got, want)):
+        # a pair whose exchange probability is 1 may be decided without drawing a uniform (it must then be exchanged);
+        # every probability below 1 must appear as the threshold of a comparison
+        want_lt1 = [w for w in want if w < 1.0 - 1e-12]
+        got_lt1 = [g for g in got if g < 1.0 - 1e-12]
+        n_certain = len(want) - len(want_lt1)
+        if len(got_lt1) != len(want_lt1) or any(abs(g - w) > 1e-12 for g, w in zip(got_lt1, want_lt1)) or len(got) - len(got_lt1) > n_certain:
             add_fail("exchange/threshold-not-min(1,exp((1/Ti-1/Tj)(Lj-Li)))", f"pairs {pairs}: uniforms compared with {got}, expected {want}", choices=ctx.choices)
         accepted = [(i, j) for (i, j) in pairs if ds[i, j] > 0]
         if np.any(ds > da):
             add_fail("exchange/success-counted-without-attempt", f"{ds.tolist()}", choices=ctx.choices)
-        nacc_obs = sum(1 for o in obs if o[0] == "cmp" and o[5])
-        if nacc_obs != len(accepted):
-            add_fail("exchange/successful-swap-count-differs-from-accepted-decisions", f"{nacc_obs} accepted decisions, counted {len(accepted)}", choices=ctx.choices)
+        for pr, pv in prob.items():
+            if pv >= 1.0 - 1e-12 and pr not in accepted:
+                add_fail("exchange/certain-exchange-not-performed", f"pair {pr} has exchange probability 1 (T={ladder[pr[0]]},{ladder[pr[1]]}) but was not exchanged", choices=ctx.choices)
+        nacc_obs = sum(1 for o in obs if o[0] == "cmp" and o[5] and min(max(o[3], 0.0), 1.0) < 1.0 - 1e-12)
+        if nacc_obs != sum(1 for pr in accepted if prob[pr] < 1.0 - 1e-12):
+            add_fail("exchange/successful-swap-count-differs-from-accepted-decisions", f"{nacc_obs} accepted uncertain decisions, counted {len(accepted)} exchanges", choices=ctx.choices)
         touched = set()
         for i, j in accepted:
             touched |= {i, j}
@@ -470,6 +482,8 @@ def run(ck):
         ex.append(dict(chains="GibbsChain", N=N, seed=1 + seed, presteps=1, ladder="unsorted"))
     for N in (2, 3):
         ex.append(dict(chains="GibbsChain", N=N, seed=1 + seed, presteps=1, rounds=2))
+    for N in (2, 3, 4):
+        ex.append(dict(chains="GibbsChain", N=N, seed=1 + seed, presteps=1, ladder="tied", rounds=2 if N == 2 else 1))
     ex.append(dict(chains="HamiltonianChain", N=2, seed=1 + seed, presteps=0, rounds=3 if not q else 2, ladder="unsorted"))
     if not q:
         ex.append(dict(chains="mixed", N=5, seed=2, presteps=1))
